@@ -80,7 +80,7 @@ Print Assumptions C12_final_step_bounded.
 
 (* ... whereas the per-chunk and the hash acknowledgement let every int64 through to the
    display: these flows rely on C20's totality of the progress bar *)
-Theorem C12_ack_step_unguarded : forall c sent step, in_range 64 step = true ->
+Theorem C12_ack_step_unguarded : forall c sent step, gd_in_range 64 step = true ->
   guard FAckStep c sent step = true /\ guard FHashAckStep c sent step = true.
 Proof. exact ack_step_unguarded. Qed.
 Print Assumptions C12_ack_step_unguarded.
@@ -88,13 +88,13 @@ Print Assumptions C12_ack_step_unguarded.
 (* the modelled ParseInt / Atoi / JSON integer / ParseUint are total, their results fit the
    destination type, and numerals outside it are rejected *)
 Theorem C12_int_parsers_total :
-  (forall s, match parse_int64 s with Some v => - 2 ^ 63 <= v <= 2 ^ 63 - 1 | None => True end) /\
-  (forall s, match atoi s with Some v => - 2 ^ 63 <= v <= 2 ^ 63 - 1 | None => True end) /\
-  (forall s v, s <> [] -> digits_val 0 s = Some v -> 2 ^ 63 - 1 < v -> parse_int64 s = None) /\
-  (forall s v, s <> [] -> digits_val 0 s = Some v -> 2 ^ 63 < v -> parse_int64 (45%N :: s) = None) /\
-  (forall j v, json_int 32 0 j = Some v -> - 2 ^ 31 <= v <= 2 ^ 31 - 1) /\
-  (forall dflt j v, in_range 64 dflt = true -> json_int 64 dflt j = Some v -> - 2 ^ 63 <= v <= 2 ^ 63 - 1) /\
-  (forall s v, parse_uint32 s = Some v -> 0 <= v <= 2 ^ 32 - 1).
+  (forall s, match gd_parse_int64 s with Some v => - 2 ^ 63 <= v <= 2 ^ 63 - 1 | None => True end) /\
+  (forall s, match gd_atoi s with Some v => - 2 ^ 63 <= v <= 2 ^ 63 - 1 | None => True end) /\
+  (forall s v, s <> [] -> gd_digits_val 0 s = Some v -> 2 ^ 63 - 1 < v -> gd_parse_int64 s = None) /\
+  (forall s v, s <> [] -> gd_digits_val 0 s = Some v -> 2 ^ 63 < v -> gd_parse_int64 (45%N :: s) = None) /\
+  (forall j v, gd_json_int 32 0 j = Some v -> - 2 ^ 31 <= v <= 2 ^ 31 - 1) /\
+  (forall dflt j v, gd_in_range 64 dflt = true -> gd_json_int 64 dflt j = Some v -> - 2 ^ 63 <= v <= 2 ^ 63 - 1) /\
+  (forall s v, gd_parse_uint32 s = Some v -> 0 <= v <= 2 ^ 32 - 1).
 Proof. exact int_parsers_total. Qed.
 Print Assumptions C12_int_parsers_total.
 
